@@ -15,7 +15,7 @@ def run(ctx):
         for j, alive in enumerate([4, 16, 64] if q else [2, 4, 8, 16, 32, 64, 128]):
             for rep in range(1 if q else 3):
                 n = (1200 if q else 12000) // (3 if hb else 1)
-                cmd = [exe, "--threads", str(n), "--alive", str(alive), "--races", str(120 if q else 2500), "--foreign", str(60 if q else 1000), "--unref-races", str(600 if q else 20000), "--tls-histories", str(150 if q else 3000), "--seed", str(sd * 100 + j * 10 + rep)]
+                cmd = [exe, "--threads", str(n), "--alive", str(alive), "--races", str(120 if q else 2500), "--foreign", str(60 if q else 1000), "--unref-races", str(600 if q else 20000), "--tls-histories", str(150 if q else 800), "--seed", str(sd * 100 + j * 10 + rep)]
                 if rep % 2 == 1:
                     cmd.append("--no-delays")
                 job = dict(cmd=cmd, variant=variant, tag="%s alive%d rep%d" % (variant, alive, rep), san_ctx="thread", hang_is_violation=True, hang_key="symptom=hang (join or thread start never completed)")
